@@ -85,6 +85,66 @@ func scenarioBurst(enc *json.Encoder, idx int) map[string]any {
 	return s.finish(enc, false)
 }
 
+// ---------------------------------------------------------------- family P: the client leaves while the backend has not answered (C11)
+
+// a complete request - with and without a body, every kind of method - is with a backend that does not answer; the client goes away.
+// Nothing of that connection may stay behind in the proxy: not the accepted connection, not the goroutines serving it.
+func scenarioBackendPending(enc *json.Encoder, idx int) map[string]any {
+	release := make(chan struct{})
+	s := startScenario(fmt.Sprintf("pending-%d", idx), "pending", stack.Options{HandshakeTimeout: 300 * time.Millisecond, IdleTimeout: 400 * time.Millisecond,
+		Respond: func(w http.ResponseWriter, r *http.Request, rec *stack.BackendReq) {
+			if r.Header.Get("X-Vf-Hang") != "" {
+				select {
+				case <-release:
+				case <-r.Context().Done(): // the proxy gave the outbound request up
+				}
+				return
+			}
+			w.WriteHeader(200)
+			io.WriteString(w, "backend-ok")
+		}})
+	var wg sync.WaitGroup
+	for _, k := range []string{"h1", "h2", "noalpn"} {
+		for _, m := range []string{"GET", "POST", "DELETE", "PUT"} {
+			for _, reset := range []bool{false, true} {
+				k, m, reset := k, m, reset
+				wg.Add(1)
+				go func() {
+					defer wg.Done()
+					s.client(k, clientOpts{requests: 1, pending: m, reset: reset})
+				}()
+			}
+		}
+	}
+	wg.Wait()
+	var stuck []string
+	if !s.waitExited(6 * time.Second) {
+		s.note("connections still open 6s after all clients left")
+		s.r.mu.Lock()
+		exited := map[string]bool{}
+		for _, e := range s.r.events {
+			if e["op"] == "exit" {
+				exited[e["c"].(string)] = true
+			}
+		}
+		for _, e := range s.r.events {
+			if e["op"] == "accept" && !exited[e["c"].(string)] {
+				stuck = append(stuck, e["c"].(string))
+			}
+		}
+		s.r.mu.Unlock()
+		s.mu.Lock()
+		for i, id := range stuck {
+			stuck[i] = id + ":" + s.kinds[id]
+		}
+		s.mu.Unlock()
+	}
+	close(release)
+	res := s.finish(enc, false)
+	res["still_served_6s_after_the_client_left"] = stuck
+	return res
+}
+
 // ---------------------------------------------------------------- family R: every way of leaving, one connection kind x stage x manner each (C11)
 
 func scenarioLeave(enc *json.Encoder, idx int, reset bool) map[string]any {
@@ -901,6 +961,7 @@ func runAll(tracePath, reportPath string) {
 		report = append(report, scenarioMix(enc, i, rng, nconn))
 	}
 	report = append(report, scenarioBurst(enc, 0))
+	report = append(report, scenarioBackendPending(enc, 0))
 	report = append(report, scenarioLeave(enc, 0, false), scenarioLeave(enc, 1, true))
 	for i, pt := range []string{"metadata.marshal.begin", "metadata.marshal.after_settings", "metadata.marshal.after_window_update", "metadata.marshal.after_priorities"} {
 		report = append(report, scenarioCaptureRace(enc, i, pt))
